@@ -32,6 +32,41 @@ def args_of(op):
 KNOWN_CLASSES = {}
 
 PROPS = {
+    "C05": {
+        "lean_modules": ["TableauVerif.Props.C05"],
+        "oracles": ["c05.typeinfos", "c05.gen"],
+        "streams": [
+            ("replay.C05.typeinfos", 2, 12, 1),
+            ("e2e.C05", 24, 400, 4),
+        ],
+        "assumptions": [
+            "the lock programs are regenerated from the Go source (type-checked with go/packages) on every run; the discipline predicates over them are kernel-evaluated obligations",
+            "abstraction: the Go scheduler realises one of the interleavings the thread model quantifies over; Go memory model, sync.Pool internals and library goroutines are trusted; data-race freedom beyond the lock discipline is not proved (partial)",
+            "interface-method calls and calls through function values are not resolved statically: those made under a lock are pinned one by one (locks_dyn_calls_pinned)",
+        ],
+    },
+    "C20": {
+        "lean_modules": ["TableauVerif.Props.C20"],
+        "oracles": ["c20.ts"],
+        "streams": [
+            ("corr.xproto.parseTime", 20000, 600000),
+        ],
+        "assumptions": [
+            "modelled: parseTimeWithLocation (layout choice, yyyyMMdd rewrite), time.ParseInLocation for the two layouts, time.Date's two-guess zone lookup, timestamppb.CheckValid; a location is its transition table, enumerated from Go's own zone database through Time.ZoneBounds (1950-2036) on every run",
+            "not modelled: fractional seconds (answered 'unmodelled'), local mean time before the table, the POSIX-TZ extension rule after 2036; durations and the EmitTimezones JSON rewrite are not yet covered by this check (partial)",
+        ],
+    },
+    "C12": {
+        "lean_modules": ["TableauVerif.Props.C12"],
+        "oracles": ["c12.range"],
+        "streams": [
+            ("corr.fieldprop.range", 12000, 400000),
+        ],
+        "assumptions": [
+            "modelled: fieldprop.CheckInRange (signed/unsigned integer kinds, string length), CheckMapKeySequence (signed keys), GetSize/IsFixed; float ranges answered by the implementation only (not modelled)",
+            "partial: unique / refer / contiguity / duplicate-column constraints are decided by the end-to-end streams of the table parser, not by these theorems",
+        ],
+    },
     "C13": {
         "lean_modules": ["TableauVerif.Props.C13"],
         "oracles": ["c13.patch"],
